@@ -218,7 +218,7 @@ def icpdag_rules(rep, prog):
               "the I-CPDAG is not `dag_to_cpdag(G)` refined once per edge at a target")
     rets = S.select("return", qname=q)
     okr = len(rets) == 1 and rets[0].value[0] == "after" and any(pol is True and c[0] == "call" and c[1] == U + "is_consistent_extension" and dict(c[3]).get("G") == PG
-                                                                  for c, pol in rets[0].path)
+                                                                  for c, pol in tuple(rets[0].path) + tuple(getattr(rets[0], "asserts", ())))
     rep.check("RESULT.asserted", okr, fwhere(f), "the result is returned under the assertion is_consistent_extension(G, P)", "the final consistency assertion is gone")
     # dependence on I (must-depend: certain when absent)
     dep = mentions(first["iter"], PI)
